@@ -819,8 +819,11 @@ static int ec_substitute(char *loc, char *cmd, char *arg, char *txt)
 			sbuf_mem(r, ln, offs[0]);
 			replace(r, xrep, ln, offs);
 			ln += offs[1];
-			if (offs[1] <= 0)	/* zero-length match */
-				sbuf_chr(r, (unsigned char) *ln++);
+			if (offs[1] <= 0) {	/* zero-length match */
+				char *nx = uc_next(ln);
+				sbuf_mem(r, ln, nx - ln);
+				ln = nx;
+			}
 			if (!*ln || *ln == '\n' || !strchr(s, 'g'))
 				break;
 		}
